@@ -109,7 +109,12 @@ Section Exec.
       end
     end.
 
-  Record block := mkB { b_header : header; b_txs : list txn }.
+  (* b_rr_fix: the receipts root registered for this block's id in the validator's hard-coded correction table
+     (thor.LoadCorrectReceiptsRoots(): a handful of historical mainnet blocks), if any — data *)
+  Record block := mkB { b_header : header; b_txs : list txn; b_rr_fix : option N }.
+
+  Definition receipts_root_ok (b : block) (r : N) : bool :=
+    (h_receipts_root (b_header b) =? r) || match b_rr_fix b with Some x => x =? r | None => false end.
 
   Definition ctx_of_header (parent h : header) : bctx :=
     mkCtx (h_beneficiary h) (match h_signer h with Some s => s | None => 0 end) (h_number parent + 1) (h_time h)
@@ -124,7 +129,7 @@ Section Exec.
     | VBad v => Rejected v
     | VOk st1 rcs used =>
       if negb (h_gas_used h =? used) then Rejected (Critical 55)
-      else if negb (h_receipts_root h =? root_of_receipts rcs) then Rejected (Critical 56)
+      else if negb (receipts_root_ok b (root_of_receipts rcs)) then Rejected (Critical 56)
       else
         let fin := if pos then
                      (if negb (sanity st1) then inr (Critical 57)
@@ -204,7 +209,7 @@ Section Exec.
     end.
 
   (* what the crypto library will report for the header the packer signs (inputs) *)
-  Record sig_report := mkSR { sr_len : N; sr_signer : option N; sr_beta : option bytes }.
+  Record sig_report := mkSR { sr_len : N; sr_signer : option N; sr_beta : option bytes; sr_rr_fix : option N }.
 
   (* Flow.Pack; None = Pack returns an error *)
   Definition pack (cfg : config) (pos : bool) (parent : header) (ctx : bctx) (feats : N)
@@ -221,7 +226,7 @@ Section Exec.
                        (root_of_txs ts) feats (root_of_state st2) (root_of_receipts rs)
                        alpha ((c_finality cfg <=? num) && vote) (x_base_fee ctx)
                        (sr_len sr) (sr_signer sr) (sr_beta sr))
-                  ts, st2, rs)
+                  ts (sr_rr_fix sr), st2, rs)
       end
     end.
 
